@@ -206,6 +206,19 @@ let () =
             oracle "quiet_not_fixed" "the implementation announced nothing more, yet some router has not processed a neighbour's current advertisement"
           else if not (converged si) then
             oracle "quiet_not_converged" (String.concat " | " (List.map (fun r -> dec_of_n r.self ^ ": " ^ str_ent r) si))
+      | ["chkfixed"; _r] ->
+          incr nchecks;
+          let si = List.sort (fun a b -> ncmp a.self b.self) (Hashtbl.fold (fun _ r acc -> r :: acc) impl_rt []) in
+          let g = topo_of si in
+          if not (settled g) then Printf.printf "BADCHK %d %s not-settled\n" !lineno !case
+          else begin
+            let need = 2 * int_of_n iNF + int_of_nat (maxdist g) + 1 in
+            if !rounds < need && all_pairs g <> [] then Printf.printf "BADCHK %d %s rounds=%d need=%d\n" !lineno !case !rounds need
+            else if not (fixedb si) then
+              oracle "not_fixed_after_bound" (Printf.sprintf "rounds=%d: some router's stored costs are not what its neighbour's current advertisement yields" !rounds)
+            else if not (converged si) then
+              oracle "fixed_not_converged" (String.concat " | " (List.map (fun r -> dec_of_n r.self ^ ": " ^ str_ent r) si))
+          end
       | "noquiet" :: _ -> oracle "no_quiescence" "the notification-driven schedule did not come to rest within 20000 fetches"
       | ["phys"; i; nb] -> Hashtbl.replace phys (n_of_dec i) (parse_nb (split_field "nb=" nb))
       | ["chkphys"; _w] ->
